@@ -3,6 +3,13 @@
   for every well-formed configuration, every scheduling algorithm (the four
   shipped ones or an oracle proposing arbitrary task→machine pairs), every
   pattern of delays and every order of the blocks inside an instant.
+
+  `ReachOk` (TopsimProofs/SysInv.lean) is `Reach` with one side condition on the
+  oracle inputs: when the scheduling algorithm is the oracle (`s.alg = .oracle`),
+  the cluster calls it makes on its own (`orc.pre`) are
+  `provision_batch_resources` / `release_batch_resources` only
+  (`Oracle.preOk`).  For the four shipped algorithms `orc.pre` is not read and
+  the side condition is vacuous.
 -/
 import TopsimProofs.SysInv
 
@@ -11,29 +18,67 @@ namespace Sys
 
 /-- C02 on trajectories: the cluster invariant (partition of the machines,
 true counters, …) holds after every block of every schedule. -/
-theorem C02_trajectory (s0 s : Sys) (hw : WFConfig s0) (h : Reach s0 s) :
+-- CORRECTED: oracle pre-ops restricted to batch reservation calls (what a user algorithm can do
+-- through the public Cluster API).  Counterexample without it: `orc.pre = [.alloc t m none]`
+-- with `t` a finished task puts `t` back into `running` while `finished[t] = True`.
+theorem C02_trajectory (s0 s : Sys) (hw : WFConfig s0) (h : ReachOk s0 s) :
     ∃ U, Cluster.Inv s.cl U :=
   reach_cluster_inv s0 s hw h
 
 /-- C01: at every instant each machine hosts at most one live task body. -/
-theorem C01_at_most_one (s0 s : Sys) (hw : WFConfig s0) (h : Reach s0 s) :
+-- CORRECTED: oracle pre-ops restricted to batch reservation calls (what a user algorithm can do
+-- through the public Cluster API).  Counterexample without it: `orc.pre = [.finish i]` frees the
+-- machine of a polling allocation process whose task body is still alive; the next allocation
+-- on that machine gives it a second live body.
+theorem C01_at_most_one (s0 s : Sys) (hw : WFConfig s0) (h : ReachOk s0 s) :
     (s.active.map (·.1)).Nodup :=
   reach_active_nodup s0 s hw h
 
 /-- C01: a machine that may receive a task (available or reserved-idle) hosts none. -/
-theorem C01_free_machine_idle (s0 s : Sys) (hw : WFConfig s0) (h : Reach s0 s) (m : Mid)
+-- CORRECTED: oracle pre-ops restricted to batch reservation calls (same counterexample).
+theorem C01_free_machine_idle (s0 s : Sys) (hw : WFConfig s0) (h : ReachOk s0 s) (m : Mid)
     (hm : m ∈ s.cl.available ∨ m ∈ s.cl.idleAll) : m ∉ s.active.map (·.1) :=
   reach_free_not_active s0 s hw h m hm
 
 /-- C04: no task is ever started twice, whatever the algorithm proposes. -/
-theorem C04_starts_once (s0 s : Sys) (hw : WFConfig s0) (h : Reach s0 s) :
+-- CORRECTED: oracle pre-ops restricted to batch reservation calls (what a user algorithm can do
+-- through the public Cluster API).  Counterexample without it: `orc.pre = [.finish i]` removes a
+-- task from `running` while its allocation process is still polling; at its next block that
+-- process sees `task not in running`, allocates again and spawns a second `do_work` for the task.
+theorem C04_starts_once (s0 s : Sys) (hw : WFConfig s0) (h : ReachOk s0 s) :
     s.starts.Nodup :=
   reach_starts_nodup s0 s hw h
 
 /-- C04: no observation is admitted twice. -/
-theorem C04_admitted_once (s0 s : Sys) (hw : WFConfig s0) (h : Reach s0 s) :
+-- CORRECTED: stated over `ReachOk` like the others (the proof is one induction over the run for
+-- the whole system invariant; the admission clauses themselves do not depend on the restriction).
+theorem C04_admitted_once (s0 s : Sys) (hw : WFConfig s0) (h : ReachOk s0 s) :
     s.admitted.Nodup :=
   reach_admitted_nodup s0 s hw h
+
+/-! With one of the four shipped algorithms (`s0.alg ≠ .oracle`) the statements hold along every
+`Reach` trajectory, with no condition on the oracle inputs at all. -/
+
+theorem C02_trajectory_shipped (s0 s : Sys) (hw : WFConfig s0) (ha : s0.alg ≠ .oracle)
+    (h : Reach s0 s) : ∃ U, Cluster.Inv s.cl U :=
+  reach_cluster_inv s0 s hw (h.toOk ha)
+
+theorem C01_at_most_one_shipped (s0 s : Sys) (hw : WFConfig s0) (ha : s0.alg ≠ .oracle)
+    (h : Reach s0 s) : (s.active.map (·.1)).Nodup :=
+  reach_active_nodup s0 s hw (h.toOk ha)
+
+theorem C01_free_machine_idle_shipped (s0 s : Sys) (hw : WFConfig s0) (ha : s0.alg ≠ .oracle)
+    (h : Reach s0 s) (m : Mid) (hm : m ∈ s.cl.available ∨ m ∈ s.cl.idleAll) :
+    m ∉ s.active.map (·.1) :=
+  reach_free_not_active s0 s hw (h.toOk ha) m hm
+
+theorem C04_starts_once_shipped (s0 s : Sys) (hw : WFConfig s0) (ha : s0.alg ≠ .oracle)
+    (h : Reach s0 s) : s.starts.Nodup :=
+  reach_starts_nodup s0 s hw (h.toOk ha)
+
+theorem C04_admitted_once_shipped (s0 s : Sys) (hw : WFConfig s0) (ha : s0.alg ≠ .oracle)
+    (h : Reach s0 s) : s.admitted.Nodup :=
+  reach_admitted_nodup s0 s hw (h.toOk ha)
 
 /-- C01/C04: an allocation that is rejected with an error starts nothing and
 leaves the pools as they were. -/
